@@ -1098,6 +1098,18 @@ func (x *Exec) analyzeLoops(fr *Frame) {
 			freeL[0].lc = freeC[0]
 			freeC[0].used = true
 		}
+		// template invariants hold at every loop of the function
+		if len(fc.AllLoops) > 0 && fn == x.fn {
+			for _, k := range lks {
+				if k.li.lc == nil {
+					k.li.lc = &LoopContract{Key: k.li.key, used: true}
+				}
+				if !k.li.lc.templated {
+					k.li.lc.templated = true
+					k.li.lc.Invariants = append(append([]*Clause{}, k.li.lc.Invariants...), fc.AllLoops...)
+				}
+			}
+		}
 	}
 }
 
